@@ -30,7 +30,10 @@ import (
 	"net"
 	"net/http"
 	"net/http/httptest"
+	"net/url"
 	"os"
+	"regexp"
+	"runtime"
 	"path/filepath"
 	"sort"
 	"strconv"
@@ -339,6 +342,12 @@ type vfAPIBed struct {
 	dir      string
 	peer     string
 	leavers  int
+	// the leaving member of a departure phase reaches etcd through this relay (its only endpoint),
+	// which can answer ONE chosen object write with etcd's "request timed out" (c18_h2relay_test.go)
+	relay *vfH2Relay
+	// set once requests were found parked for ever on the short-timeout member: that member is
+	// unusable from then on, later long-hold phases are skipped
+	member2Dead bool
 }
 
 // vfStartLeaver adds one more API member to the cluster (client-only cluster member + supervisor +
@@ -348,7 +357,7 @@ type vfAPIBed struct {
 func (b *vfAPIBed) vfStartLeaver(t vfFataler) *vfAPIMember {
 	b.leavers++
 	name := fmt.Sprintf("vf-leaver-%d", b.leavers)
-	opt := vfOptions(t, b.dir, name, "secondary", b.peer)
+	opt := vfOptions(t, b.dir, name, "secondary", b.relay.URL())
 	cls := vfNewCluster(t, opt)
 	super := supervisor.MustNew(opt, cls)
 	server := MustNewServer(opt, cls, super, nil)
@@ -406,6 +415,15 @@ func vfStartAPIBed(t *testing.T) *vfAPIBed {
 	psuper := supervisor.MustNew(popt, pcls)
 	pserver := MustNewServer(popt, pcls, psuper, nil)
 	b := &vfAPIBed{observer: ocls, dir: dir, peer: peer}
+	pu, perr := url.Parse(peer)
+	if perr != nil {
+		t.Fatalf("VF-INCONCLUSIVE peer url %q: %v", peer, perr)
+	}
+	relay, rerr := vfNewH2Relay(pu.Host)
+	if rerr != nil {
+		t.Fatalf("VF-INCONCLUSIVE relay: %v", rerr)
+	}
+	b.relay = relay
 	b.members = []*vfAPIMember{
 		{name: "primary", opt: popt, cls: pcls, super: psuper, server: pserver, handler: pserver.router},
 		{name: "secondary", opt: sopt, cls: scls, super: ssuper, server: sserver, handler: vfOwnRouter(sserver)},
@@ -436,6 +454,7 @@ func vfStartAPIBed(t *testing.T) *vfAPIBed {
 			w.Add(1)
 			c.Close(w)
 		}
+		relay.Close()
 	})
 	return b
 }
@@ -458,9 +477,16 @@ type vfReq struct {
 	// Big > 0: the note is padded with Big characters, which makes the spec larger than the
 	// request limit of the store (the object write is rejected by etcd)
 	Big int `json:"big,omitempty"`
+	// Fault: etcd answers "etcdserver: request timed out" to the write (Put / DeleteRange) of the
+	// object key issued by this request; every other call passes (only through the leaving member)
+	Fault bool `json:"fault,omitempty"`
 }
 
 func (r vfReq) String() string {
+	if r.Fault {
+		r.Fault = false
+		return r.String() + "[FAULT: etcd answers 'request timed out' to the write of the object key]"
+	}
 	switch r.Op {
 	case "create", "update", "update-badname":
 		if r.Big > 0 {
@@ -479,6 +505,7 @@ type vfResp struct {
 	version   int64
 	hasVer    bool
 	body      string
+	faulted   bool // the relay did answer the object write of this request with the fault
 }
 
 func (r vfResp) String() string {
@@ -676,8 +703,55 @@ func vfGenRound(rt *rapid.T) *vfRound {
 			return rq
 		}
 		d := &vfDeparture{How: rapid.SampledFrom([]string{"close", "purge", "close"}).Draw(rt, "departureHow")}
+		// In every departure phase one more request goes through the leaving member, before its last
+		// one: a request whose write of the object key is answered "etcdserver: request timed out" by
+		// etcd (placed by the relay) while every other call passes. The generator knows the stored
+		// objects here, so the request reaches its object write by construction: a delete (half of
+		// the phases) or update of a stored name (created first through the same member when nothing
+		// is stored), or a create of a missing name. It must fail and change nothing.
+		genFault := func() []vfReq {
+			var stored, absent []string
+			for _, n := range names {
+				if _, ok := present[n]; ok {
+					stored = append(stored, n)
+				} else {
+					absent = append(absent, n)
+				}
+			}
+			var out []vfReq
+			rq := vfReq{Member: 3, Fault: true, Op: rapid.SampledFrom([]string{"delete", "delete", "delete", "update", "create"}).Draw(rt, "fault.op")}
+			if rq.Op == "create" && len(absent) == 0 {
+				rq.Op = "delete"
+			}
+			if rq.Op != "create" && len(stored) == 0 {
+				// nothing is stored: the leaving member creates the object first
+				c := vfReq{Member: 3, Op: "create", Name: rapid.SampledFrom(names).Draw(rt, "fault.prepare"), Note: note()}
+				c.Kind = usual[c.Name]
+				present[c.Name] = c.Kind
+				applied = append(applied, c)
+				out = append(out, c)
+				stored = []string{c.Name}
+			}
+			if rq.Op == "create" {
+				rq.Name = rapid.SampledFrom(absent).Draw(rt, "fault.name")
+				rq.Kind = usual[rq.Name]
+			} else {
+				rq.Name = rapid.SampledFrom(stored).Draw(rt, "fault.name")
+				rq.Kind = present[rq.Name]
+			}
+			if rq.Op == "delete" {
+				rq.Kind = ""
+			} else {
+				rq.Note = note()
+			}
+			return append(out, rq)
+		}
 		nVia := rapid.IntRange(1, 3).Draw(rt, "nVia")
+		faultAt := rapid.IntRange(0, nVia-1).Draw(rt, "faultAt")
 		for i := 0; i < nVia; i++ {
+			if i == faultAt {
+				d.Via = append(d.Via, genFault()...)
+			}
 			d.Via = append(d.Via, genSeq(3, "via.", i == nVia-1))
 		}
 		nAfter := rapid.IntRange(1, 2).Draw(rt, "nAfter")
@@ -898,7 +972,19 @@ func TestVerifC18API(t *testing.T) {
 			}
 			viaOK, afterOK := false, false
 			for _, rq := range d.Via {
+				if rq.Fault {
+					bed.relay.Arm(lv.cls.Layout().ConfigObjectKey(rq.Name))
+				}
 				rs := vfDo(lv, rq, &clock, -3)
+				if rq.Fault {
+					rs.faulted = bed.relay.Disarm() > 0
+					if rs.faulted {
+						vf.Class(fmt.Sprintf("etcd-answered-request-timed-out-to-the-object-write-of-a-%s=>%d", rq.Op, rs.status))
+					} else {
+						// (e.g. the relay lost track of the connection: the request is an ordinary one then)
+						vf.Class("fault-not-placed")
+					}
+				}
 				all = append(all, rs)
 				viaOK = viaOK || rs.success()
 			}
@@ -926,7 +1012,9 @@ func TestVerifC18API(t *testing.T) {
 		// timeout of the short-timeout API member
 		type vfHold struct{ acq, rel int64 }
 		var holds []vfHold
-		if len(round.LongHold) > 0 {
+		if len(round.LongHold) > 0 && bed.member2Dead {
+			vf.Class("long-hold-phase-skipped:short-timeout-member-is-blocked-for-ever")
+		} else if len(round.LongHold) > 0 {
 			if err := obsMutex.Lock(); err != nil {
 				rt.Fatalf("VF-INCONCLUSIVE observer Lock: %v", err)
 			}
@@ -965,11 +1053,52 @@ func TestVerifC18API(t *testing.T) {
 			holds = append(holds, h)
 			joined := make(chan struct{})
 			go func() { lwg.Wait(); close(joined) }()
-			select {
-			case <-joined:
-			case <-time.After(5 * time.Minute):
-				rt.Fatalf("VF-INCONCLUSIVE long-hold requests still blocked after 5 minutes\n%s", round)
+			// The lock is free again. While requests are still unanswered the goroutines are inspected:
+			// when every unanswered request is parked on the goroutine-level lock of its member's
+			// Mutex object (sync.Mutex.Lock below api.(*Server).Lock), the store holds nothing under
+			// the lock key (nobody holds or awaits the cluster lock) and that is so for three samples
+			// in a row with the very same goroutines, nobody is left who could ever release that
+			// goroutine-level lock: the requests are blocked for ever (no clock verdict involved).
+			deadline := time.After(5 * time.Minute)
+			tick := time.NewTicker(400 * time.Millisecond)
+			prevIDs, same := "", 0
+		waitLongHold:
+			for {
+				select {
+				case <-joined:
+					break waitLongHold
+				case <-deadline:
+					tick.Stop()
+					rt.Fatalf("VF-INCONCLUSIVE long-hold requests still blocked after 5 minutes\n%s", round)
+				case <-tick.C:
+					if uerr != nil {
+						continue
+					}
+					ids, sample, ok := vfParkedOnLocalLock(pcls)
+					if ok && ids == prevIDs {
+						same++
+					} else {
+						same = 0
+					}
+					prevIDs = ids
+					if ok && same >= 2 {
+						tick.Stop()
+						bed.member2Dead = true
+						mu.Lock()
+						sort.Slice(all, func(i, j int) bool { return all[i].inv < all[j].inv })
+						var answered []string
+						for _, r := range all {
+							answered = append(answered, r.String())
+						}
+						mu.Unlock()
+						vf.Violation(rt, "requests-parked-on-the-member-local-lock-while-nobody-holds-the-cluster-lock",
+							"the observer released %s, the store holds no key under it, yet the unanswered requests of the short-timeout member (goroutines %s) stay parked in sync.Mutex.Lock under api.(*Server).Lock and no other request of that member is running: the goroutine-level lock of the member's Mutex object was left locked (by a Lock() that failed) and nobody can release it\nanswered so far: %v\none of the parked goroutines:\n%s\n%s",
+							lockKey, ids, answered, sample, round)
+						return
+					}
+				}
 			}
+			tick.Stop()
 			if uerr != nil {
 				rt.Fatalf("VF-INCONCLUSIVE observer Unlock: %v", uerr)
 			}
@@ -1136,6 +1265,11 @@ func TestVerifC18API(t *testing.T) {
 				vf.Class("503-lock-timeout-while-another-member-held-the-lock")
 				continue
 			}
+			if r.faulted && r.status >= 500 {
+				// etcd answered "request timed out" to the object write: a failed request; it must have
+				// changed nothing and consumed no version (ledger and replay below)
+				continue
+			}
 			if r.req.Big > 0 && r.status >= 500 {
 				// the store rejected the object write of an oversized spec: a failed request; it must
 				// have changed nothing and consumed no version (ledger and replay below)
@@ -1144,6 +1278,22 @@ func TestVerifC18API(t *testing.T) {
 			}
 			if r.status >= 500 && trouble == "" {
 				trouble = fmt.Sprintf("%s answered %d: %s", r.req, r.status, strings.TrimSpace(r.body))
+			}
+		}
+		// a request whose object write was refused by the store must not be acknowledged
+		for _, r := range all {
+			if r.faulted && r.success() {
+				now, _ := pcls.Get(pcls.Layout().ConfigObjectKey(r.req.Name))
+				have := "absent"
+				if now != nil {
+					if _, o, err := vfParseObjYAML(*now); err == nil {
+						have = o.Kind + "/" + o.Note
+					}
+				}
+				vf.Violation(rt, r.req.Op+"-acknowledged-although-etcd-refused-its-object-write",
+					"etcd answered 'etcdserver: request timed out' to the write of %s issued by %s (the server never received it), yet the request was acknowledged with a new version; the store now has %s: %s\n%s",
+					pcls.Layout().ConfigObjectKey(r.req.Name), r, r.req.Name, have, history())
+				return
 			}
 		}
 		// nothing succeeds inside another member's hold
@@ -1283,7 +1433,7 @@ func TestVerifC18API(t *testing.T) {
 		}
 		// every other answer is explained by a state compatible with its real-time interval
 		for _, r := range all {
-			if r.success() || lockTimeout(r) || r.req.Big > 0 && r.status >= 500 {
+			if r.success() || lockTimeout(r) || (r.req.Big > 0 || r.faulted) && r.status >= 500 {
 				continue
 			}
 			lo, hi := v0, v0+k
@@ -1343,6 +1493,44 @@ func TestVerifC18API(t *testing.T) {
 			}
 		}
 	})
+}
+
+var vfGoroutineHdr = regexp.MustCompile(`^goroutine (\d+) \[([^\],]+)`)
+
+// vfParkedOnLocalLock inspects the goroutines of the process. ok = there are unanswered requests
+// (goroutines inside vfDo), every one of them is parked in sync.Mutex.Lock below api.(*Server).Lock,
+// and the store holds no key under the cluster lock before and after the snapshot. ids = their
+// goroutine ids, sample = the stack of one of them. When the stack dump cannot be interpreted
+// ok is false (then only the 5-minute inconclusive wait remains).
+func vfParkedOnLocalLock(c cluster.Cluster) (ids string, sample string, ok bool) {
+	if keys, err := c.GetPrefix(lockKey + "/"); err != nil || len(keys) > 0 {
+		return "", "", false
+	}
+	buf := make([]byte, 32<<20)
+	n := runtime.Stack(buf, true)
+	if n >= len(buf) {
+		return "", "", false
+	}
+	var parked []string
+	for _, g := range strings.Split(string(buf[:n]), "\n\n") {
+		if !strings.Contains(g, ".vfDo(") {
+			continue
+		}
+		m := vfGoroutineHdr.FindStringSubmatch(g)
+		if m == nil {
+			return "", "", false
+		}
+		if !(m[2] == "sync.Mutex.Lock" || m[2] == "semacquire") || !strings.Contains(g, "sync.(*Mutex).Lock") || !strings.Contains(g, "api.(*Server).Lock") {
+			return "", "", false
+		}
+		parked = append(parked, m[1])
+		sample = g
+	}
+	if keys, err := c.GetPrefix(lockKey + "/"); err != nil || len(keys) > 0 || len(parked) == 0 {
+		return "", "", false
+	}
+	sort.Strings(parked)
+	return strings.Join(parked, ","), sample, true
 }
 
 func vfStatesStr(states []map[string]vfObj, v0 int64) string {
